@@ -72,7 +72,6 @@ structure Guards where
   ctrlValue : Bool          -- control.go decodeControl: value.Value.(string) checked
   convertEmpty : Bool       -- request.go ConvertString: len(data) checked before data[0]
   readLenBounds : Bool      -- request.go readLength: bounds checked before bytes[0] / bytes[read]
-  convertSlice : Bool       -- request.go ConvertString: header length checked before slicing
   modifyRespCode : Bool     -- request.go NewModifyResponse: nil response code defaulted
   deriving Repr, DecidableEq
 
@@ -80,9 +79,9 @@ def Guards.decodeAll (g : Guards) : Bool :=
   g.bindVersionMsg && g.ctrlType && g.ctrlCrit && g.pagingShape && g.pagingSize && g.beheraWarn && g.ctrlValue
 
 def Guards.helpersAll (g : Guards) : Bool :=
-  g.convertEmpty && g.readLenBounds && g.convertSlice && g.modifyRespCode
+  g.convertEmpty && g.readLenBounds && g.modifyRespCode
 
-def allGuards : Guards := ⟨true, true, true, true, true, true, true, true, true, true, true⟩
-def noGuards : Guards := ⟨false, false, false, false, false, false, false, false, false, false, false⟩
+def allGuards : Guards := ⟨true, true, true, true, true, true, true, true, true, true⟩
+def noGuards : Guards := ⟨false, false, false, false, false, false, false, false, false, false⟩
 
 end Gldap
